@@ -3,6 +3,7 @@ import itertools
 import struct
 
 import c04
+import c0405_lib
 import emu_lib
 import emu_props
 import engine
@@ -97,6 +98,9 @@ def gen_history(r, res, p_illegal=0.25, maxlen=36):
             else:
                 w.thread_op(t, op)
             res.dist("op:OH" + op)
+    if w.illegal and r.random() < 0.75:
+        # continue as an implementation accepting the illegal step would: it must not be accepted
+        c0405_lib.complete_as_if(w)
     if not w.illegal and r.random() < 0.85:
         w.finish_all()
         for t in range(w.n):
@@ -146,6 +150,9 @@ def directed():
     # OAr to the CPU the thread already has: unspecified by the property (the code rejects it)
     w = walk(); w.thread_op(0, "x", cpu=c0); w.thread_op(1, "x", cpu=c1); w.affinity_remote(0, 1, c1)
     out.append(w)
+    for w in out:
+        if w.illegal:
+            c0405_lib.complete_as_if(w)
     return [(sysd, w.events, w.expected(), "; ".join(w.illegal + w.unspecified)) for w in out]
 
 
